@@ -17,16 +17,19 @@ GEN_REGIONS = ["Attrs"]
 THEOREMS = {
     "SpecKitV.Lemmas.Sinusoid": ["segDFT_raw_toC", "sinusoid_identity", "calibration_bound", "power_spectrum_calibrated",
                                  "winT_le_sum", "winT_zero"],
+    # the library default, order 0 (mean removal): the bound the oracle uses, r = rho + 2*rho0
+    "SpecKitV.Lemmas.Calib0": ["segDFT_order0_eq", "sinusoid_mean_bound", "calibration_bound_order0", "power_spectrum_calibrated_order0",
+                               "ps_of_segment_bound"],
     "SpecKitV.Props.AttrsA": ["Gxx_def", "Gxy_def", "enbw_def", "ps_eq", "ps_def", "scale_x", "scale_y", "scale_fs"],
 }
 CONTRACTS = ["np.kaiser / np.hanning / a user callable return the window samples; the theorems hold for ANY window w "
              "(calibration_bound needs only sum(w) > 0) and the oracle rebuilds the window independently (_an.window)"]
 ASSUMPTIONS = [
     "rounding / fastmath re-association are covered by the stated forward tolerance (_an.bin_tol), not by theorem",
-    "calibration_bound / power_spectrum_calibrated are proved for order = -1 (no detrending). For order 0 the oracle uses the "
-    "hand-derived bound r = rho + 2*rho0, rho0 = |W(w0)|*|D_L(w0)|/(L*S1) (mean of a sinusoid segment is at most A*|D_L|/L, "
-    "subtracting m*w moves X by at most |m|*|W(w0)|); it is not a Lean theorem. Orders 1, 2 have no closed-form bound: the "
-    "oracle only compares them with the reference estimator evaluated in extended precision",
+    "calibration_bound / power_spectrum_calibrated are proved for order = -1 (no detrending) and, as calibration_bound_order0 / "
+    "power_spectrum_calibrated_order0 (Lemmas/Calib0), for order 0 with r = rho + 2*rho0, rho0 = |W(w0)|*|D_L(w0)|/(L*S1) -- the bound "
+    "the oracle evaluates. Orders 1, 2 have no closed-form bound: the oracle only compares them with the reference estimator "
+    "evaluated in extended precision",
     "the SIZE of rho (how low the Kaiser side lobes are) is not proved (C12's numeric residual); the oracle measures rho "
     "from the independently built window and uses the proved bound with that measured rho",
     "scale_x / scale_y / scale_fs are theorems about the attribute table given the raw statistics; that XX, XY scale with "
